@@ -1,0 +1,108 @@
+//go:build verif
+
+package bytecode
+
+import (
+	"fmt"
+	"sort"
+)
+
+// This file is compiled only with the "verif" build tag. It exports
+// read-only views of compiler and VM internals for the verification
+// harness in /verif. It adds no behaviour.
+
+// VerifSP returns the VM stack pointer.
+func (vm *VM) VerifSP() int { return vm.sp }
+
+// VerifGlobal returns the printed form of global slot i and whether the
+// slot holds a value.
+func (vm *VM) VerifGlobal(i int) (string, bool) {
+	if i < 0 || i >= len(vm.globals) || vm.globals[i] == nil {
+		return "", false
+	}
+	return vm.globals[i].String(), true
+}
+
+// VerifGlobalRepr returns a structural rendering of global slot i:
+// numbers as IEEE bit patterns, strings quoted, arrays and maps nested.
+func (vm *VM) VerifGlobalRepr(i int) (string, bool) {
+	if i < 0 || i >= len(vm.globals) || vm.globals[i] == nil {
+		return "", false
+	}
+	return verifRepr(vm.globals[i]), true
+}
+
+func verifRepr(v value) string {
+	switch v := v.(type) {
+	case numVal:
+		return fmt.Sprintf("n:%v", float64(v))
+	case boolVal:
+		return fmt.Sprintf("b:%v", bool(v))
+	case stringVal:
+		return fmt.Sprintf("s:%q", string(v))
+	case arrayVal:
+		s := "["
+		for i, e := range v.Elements {
+			if i > 0 {
+				s += " "
+			}
+			s += verifRepr(e)
+		}
+		return s + "]"
+	case mapVal:
+		s := "{"
+		for i, k := range v.order {
+			if i > 0 {
+				s += " "
+			}
+			s += fmt.Sprintf("%q:", k) + verifRepr(v.m[k])
+		}
+		return s + "}"
+	case noneVal:
+		return "none"
+	}
+	return fmt.Sprintf("?%T", v)
+}
+
+// VerifGlobalSymbols returns the compiler's global symbols as
+// name -> slot index.
+func (c *Compiler) VerifGlobalSymbols() map[string]int {
+	t := c.symbolTable
+	for t.outer != nil {
+		t = t.outer
+	}
+	m := make(map[string]int, len(t.store))
+	for name, sym := range t.store {
+		m[name] = sym.Index
+	}
+	return m
+}
+
+// VerifConstants returns the structural rendering of the constants.
+func (b *Bytecode) VerifConstants() []string {
+	out := make([]string, len(b.Constants))
+	for i, c := range b.Constants {
+		out[i] = verifRepr(c)
+	}
+	return out
+}
+
+// VerifSymbols returns the symbols currently stored in this table (not
+// its outer tables), sorted by name.
+func (s *SymbolTable) VerifSymbols() []Symbol {
+	out := make([]Symbol, 0, len(s.store))
+	for _, sym := range s.store {
+		out = append(out, sym)
+	}
+	sort.Slice(out, func(i, j int) bool { return out[i].Name < out[j].Name })
+	return out
+}
+
+// VerifIndex returns the next free index of this table.
+func (s *SymbolTable) VerifIndex() int { return s.index }
+
+// VerifNestedMaxIndex returns the nested maximum index of this table.
+func (s *SymbolTable) VerifNestedMaxIndex() int { return s.nestedMaxIndex }
+
+// VerifOuter returns the enclosing table (nil for the global table).
+func (s *SymbolTable) VerifOuter() *SymbolTable { return s.outer }
